@@ -991,7 +991,9 @@ def beat_period_log_rescale(tempo_params):
 
 
 def beat_period_standardized_scale(beat_period):
-    beat_period_std = np.std(beat_period) * np.ones_like(beat_period)
+    std = np.std(beat_period)
+    # a constant tempo curve has no spread to scale by
+    beat_period_std = (std if std > 0 else 1.0) * np.ones_like(beat_period)
     beat_period_mean = np.mean(beat_period) * np.ones_like(beat_period)
     beat_period_standardized = (beat_period - beat_period_mean) / beat_period_std
     return [beat_period_standardized, beat_period_mean, beat_period_std]
